@@ -132,15 +132,17 @@ StringDictionaryXBW::StringDictionaryXBW(IteratorDictString *it) {
 
   // Build the queryable index from the arrays just computed, exactly as load()
   // does from a saved image (without it the dictionary could only be saved)
-  {
-    std::stringstream image(std::ios::in | std::ios::out | std::ios::binary);
-    image.write((char *)&len, sizeof(uint));
-    image.write((char *)mapping, 257 * sizeof(uint));
-    image.write((char *)alpha, len * sizeof(uint));
-    image.write((char *)last, (len / W + 1) * sizeof(uint));
-    image.write((char *)A, (len / W + 2) * sizeof(uint));
-    xbw = new XBW(image);
-  }
+  buildIndex();
+}
+
+void StringDictionaryXBW::buildIndex() {
+  std::stringstream image(std::ios::in | std::ios::out | std::ios::binary);
+  image.write((char *)&len, sizeof(uint));
+  image.write((char *)mapping, 257 * sizeof(uint));
+  image.write((char *)alpha, len * sizeof(uint));
+  image.write((char *)last, (len / W + 1) * sizeof(uint));
+  image.write((char *)A, (len / W + 2) * sizeof(uint));
+  xbw = new XBW(image);
 }
 
 unsigned long StringDictionaryXBW::locate(uchar *str, uint strLen) {
@@ -264,7 +266,14 @@ StringDictionary *StringDictionaryXBW::load(std::istream &in) {
   dict->elements = loadValue<uint64_t>(in);
   dict->maxlength = loadValue<uint32_t>(in);
 
-  dict->xbw = new XBW(in);
+  // Keep the arrays as the constructor does (save() writes them: without them
+  // a loaded dictionary could not be saved again) and build the index from them
+  in.read((char *)&(dict->len), sizeof(uint));
+  dict->mapping = loadValue<uint>(in, 257);
+  dict->alpha = loadValue<uint>(in, dict->len);
+  dict->last = loadValue<uint>(in, dict->len / W + 1);
+  dict->A = loadValue<uint>(in, dict->len / W + 2);
+  dict->buildIndex();
 
   return dict;
 }
